@@ -338,6 +338,12 @@ func c10RunOnce(s *c10Scn, addr string, imp *c10Imp) error {
 	}
 	// send: per connection the concatenation of its requests (TCP: in scripted chunk sizes; UDP: one datagram each)
 	var sendErr error
+	var sendMu sync.Mutex
+	setErr := func(err error) {
+		sendMu.Lock()
+		sendErr = err
+		sendMu.Unlock()
+	}
 	var wg sync.WaitGroup
 	for ci := range conns {
 		wg.Add(1)
@@ -350,7 +356,7 @@ func c10RunOnce(s *c10Scn, addr string, imp *c10Imp) error {
 				}
 				if s.UDP {
 					if _, err := conns[ci].Write(s.Reqs[i].Pkg); err != nil {
-						sendErr = err
+						setErr(err)
 					}
 					continue
 				}
@@ -365,7 +371,7 @@ func c10RunOnce(s *c10Scn, addr string, imp *c10Imp) error {
 					n = len(stream)
 				}
 				if _, err := conns[ci].Write(stream[:n]); err != nil {
-					sendErr = err
+					setErr(err)
 					return
 				}
 				stream = stream[n:]
